@@ -3,6 +3,7 @@ package props
 import (
 	"fmt"
 	"go/types"
+	"go/token"
 	"sort"
 	"strings"
 
@@ -673,5 +674,133 @@ func (c *Ctx) ruleIdentityDelete() {
 	}
 	if n == 0 {
 		r.Undec(rule, "-", "anchor", "-", "no registry removal by a function that receives the registered object")
+	}
+}
+
+// ruleBalanced: every acquire is released on all exits.
+func (c *Ctx) ruleBalanced() {
+	a := c.lockAnalysis()
+	r := c.R
+	rule := "E1a.balanced"
+	r.Rule(rule, "every function that acquires a lock releases it on all of its exits (explicitly or by defer): the may-held set at every return is the may-held set at entry; a function that releases in a deferred closure is accepted when that closure releases the same lock class on every one of its paths; lock wrappers verified elsewhere are exempt", 60)
+	wrappers := map[string]bool{}
+	for _, w := range a.Wrappers {
+		wrappers[w.Fn] = true
+	}
+	fns := map[*ssa.Function]bool{}
+	for _, s := range a.Acq {
+		fns[s.Fn] = true
+	}
+	var list []*ssa.Function
+	for fn := range fns {
+		list = append(list, fn)
+	}
+	sort.Slice(list, func(i, j int) bool { return list[i].String() < list[j].String() })
+	for _, fn := range list {
+		fk := ir.FuncKey(fn)
+		if wrappers[ir.OuterKey(fn)] {
+			continue
+		}
+		why, bad := a.Imbalanced[fn]
+		if !bad {
+			r.Ok(rule, fk, "acquire/release", c.P.Pos(fn.Pos()), "balanced on every exit")
+			continue
+		}
+		// released by a deferred closure on all of its paths?
+		okDefer := false
+		for _, b := range fn.Blocks {
+			for _, in := range b.Instrs {
+				d, ok := in.(*ssa.Defer)
+				if !ok {
+					continue
+				}
+				mc, ok := d.Call.Value.(*ssa.MakeClosure)
+				if !ok {
+					continue
+				}
+				cl := mc.Fn.(*ssa.Function)
+				marks := map[*ssa.BasicBlock]bool{}
+				for _, cb := range cl.Blocks {
+					for _, ci := range cb.Instrs {
+						call, ok := ci.(*ssa.Call)
+						if !ok || call.Call.StaticCallee() == nil {
+							continue
+						}
+						n := call.Call.StaticCallee().Name()
+						if n != "Unlock" && n != "RUnlock" {
+							continue
+						}
+						for _, k := range a.ClassOf(call.Call.Args[0]) {
+							if strings.Contains(why, k) {
+								marks[cb] = true
+							}
+						}
+					}
+				}
+				if len(marks) > 0 && mustPassThrough(cl.Blocks[0], func(x *ssa.BasicBlock) bool { return marks[x] }) {
+					okDefer = true
+				}
+			}
+		}
+		if okDefer {
+			r.Ok(rule, fk, "acquire/release", c.P.Pos(fn.Pos()), "released by a deferred closure on every path")
+		} else {
+			r.Bad(rule, fk, "acquire/release", c.P.Pos(fn.Pos()), "the function "+why+": some exit leaves the lock held, and the next acquirer blocks for ever")
+		}
+	}
+}
+
+// blockingUnderLockReviewed: the blocking channel operations that run while sharedData.mu may be held, each read and found bounded.
+var blockingUnderLockReviewed = map[string]string{
+	"(*pkg/server.BgpServer).handleMGMTOp":   "reply on the per-operation errCh, which mgmtOperation creates with capacity 1 and reads exactly once",
+	"(*pkg/server.BgpServer).deleteNeighbor": "fsm.deconfiguredNotification has capacity 1 and is written once per neighbor deletion",
+	"(*pkg/server.bfdServer).AddPeer":        "select with the server-stopped alternative; the BFD loop does not take sharedData.mu",
+	"(*pkg/server.bfdServer).DeletePeer":     "select with the server-stopped alternative; the BFD loop does not take sharedData.mu",
+	"(*pkg/server.bfdServer).Start":          "select with the server-stopped alternative; the BFD loop does not take sharedData.mu",
+	"(*pkg/server.watcher).Stop":             "drains realCh after the watcher was unregistered; the producer loop does not take sharedData.mu",
+	"(*pkg/server.watcher).notify":           "write to an unbounded (infinite) channel: never blocks",
+	"pkg/server.sendfsmOutgoingMsg":          "write to the peer's unbounded (infinite) outgoing channel: never blocks",
+}
+
+// ruleBlockingUnderLock: nothing new blocks on a channel while the shared server lock may be held.
+func (c *Ctx) ruleBlockingUnderLock() {
+	a := c.lockAnalysis()
+	r := c.R
+	rule := "E1c.blocking-under-lock"
+	r.Rule(rule, "no blocking call while the lock is held: a blocking channel operation (send, receive, or select without default) in pkg/server or the table package that can run while sharedData.mu is held is one of the reviewed sites (bounded by construction: capacity-1 reply channels, unbounded channels, selects with a stop alternative); any other such operation can park the management context — and with it every API call and every peer's FSM callback — on a slow consumer", 8)
+	n := map[string]int{}
+	for _, fn := range c.P.FuncsIn("pkg/server", "internal/pkg/table") {
+		for _, b := range fn.Blocks {
+			for _, in := range b.Instrs {
+				kind := ""
+				switch x := in.(type) {
+				case *ssa.Send:
+					kind = "send"
+				case *ssa.Select:
+					if x.Blocking {
+						kind = "select"
+					}
+				case *ssa.UnOp:
+					if x.Op == token.ARROW {
+						kind = "receive"
+					}
+				}
+				if kind == "" {
+					continue
+				}
+				may, _, reached := a.At(in)
+				if !reached || may[lkShared] == 0 {
+					continue
+				}
+				fk := ir.OuterKey(fn)
+				n[fk+kind]++
+				cons := fmt.Sprintf("%s #%d", kind, n[fk+kind])
+				if why, ok := blockingUnderLockReviewed[fk]; ok {
+					r.Except(rule, fk, cons, c.P.InstrPos(in), why)
+				} else {
+					r.Bad(rule, fk, cons, c.P.InstrPos(in), "a blocking channel "+kind+" can run while sharedData.mu is held ("+may.String()+"): if the other side is not ready the server's management context stops")
+				}
+			}
+		}
 	}
 }
